@@ -1,8 +1,8 @@
 (* C17 -- boolean checkers (the `ok_*` the theorems are stated with) and the
    rows evaluated by the harness: [model agrees with the observation; clauses...].
    Clause order (harness/c17.py `clauses`):
-     config_verifies, rm_exists, launch_methods_exist, scheduler_exists,
-     executor_exists, agent_config_exists,
+     config_verifies, endpoints_defined, rm_exists, launch_methods_exist,
+     scheduler_exists, executor_exists, agent_config_exists,
      valid_request_sized, min_nodes, job_counts, agent_told_same *)
 From Coq Require Import ZArith List Bool String.
 From RP Require Import Common.Eqb Configs.Model Gen.Configs.
@@ -52,6 +52,10 @@ Definition shipped (c : combo) : bool := existsb (combo_eqb c) (all_config_schem
 Definition is_ok {A} (r : res A) : bool := match r with inr _ => true | inl _ => false end.
 
 (* ---------------------------------------------------------------- part (a) *)
+(* where to submit the job and where to stage to *)
+Definition ok_endpoints (r : resolved) : bool :=
+  match r_jm r, r_fs r with Some _, Some _ => true | _, _ => false end.
+
 Definition ok_rm (r : resolved) : bool := is_ok (r_rm r).
 
 (* a non-empty launch order, nothing skipped, every method backed by a class *)
@@ -72,7 +76,7 @@ Definition ok_agent (r : resolved) : bool :=
 (* the configuration resolves to parts that all exist *)
 Definition resolves_ok (r : res resolved) : bool :=
   match r with
-  | inr r => ok_rm r && ok_lms r && ok_sched r && ok_exec r && ok_agent r
+  | inr r => ok_endpoints r && ok_rm r && ok_lms r && ok_sched r && ok_exec r && ok_agent r
   | inl _ => false
   end.
 
@@ -84,7 +88,7 @@ Definition c17_resolve_row (site rname : string) (schema : option string) (in_ba
   let part (f : resolved -> bool) := negb sh || match obs with inr r => f r | inl _ => true end in
   ([ res_eqb resolved_eqb (resolve T site rname schema in_batch) obs;
     negb sh || is_ok obs;
-    part ok_rm; part ok_lms; part ok_sched; part ok_exec; part ok_agent ] ++ na)%list.
+    part ok_endpoints; part ok_rm; part ok_lms; part ok_sched; part ok_exec; part ok_agent ] ++ na)%list.
 
 (* the enumeration the theorems range over is the set of configurations the
    real loader finds *)
@@ -94,7 +98,7 @@ Definition c17_list_row (obs : list (string * string * list string)) : list bool
   let o := (dflt ++ named)%list in
   let m := all_config_schemas T in
   ([ forallb (fun c => existsb (combo_eqb c) o) m && forallb (fun c => existsb (combo_eqb c) m) o;
-    true; true; true; true; true; true ] ++ na)%list.
+    true; true; true; true; true; true; true ] ++ na)%list.
 
 (* the factories on arbitrary names *)
 Definition c17_factory_row (which name : string) (jsrun : bool) (obs : res string) : list bool :=
@@ -104,7 +108,7 @@ Definition c17_factory_row (which name : string) (jsrun : bool) (obs : res strin
                 then sched_create T [("agent_scheduler", JStr name);
                                      ("launch_methods", JDict (if jsrun then [("JSRUN", JDict [])] else []))]
            else exec_create T [("agent_spawner", JStr name)] in
-  ([ res_eqb String.eqb m obs; true; true; true; true; true; true ] ++ na)%list.
+  ([ res_eqb String.eqb m obs; true; true; true; true; true; true; true ] ++ na)%list.
 
 (* ---------------------------------------------------------------- part (b) *)
 Definition nonneg_req (q : request) : bool :=
@@ -154,13 +158,16 @@ Definition c17_size_row (site rname : string) (schema : option string) (q : requ
   let sh := shipped (site, rname, schema) in
   let pl := platform site rname schema (q_env_smt q) in
   let on_ok (f : nodeparams -> sized -> bool) :=
-      match pl, obs with inr (_, p), inr s => negb sh || f p s | _, _ => true end in
+      match pl, obs with
+      | inr (_, p), inr s => negb (sh && nonneg_req q) || f p s
+      | _, _ => true
+      end in
   [ res_eqb sized_eqb (launch T site rname schema q) obs && Bool.eqb (pd_verify q) pd_ok;
-    true; true; true; true; true; true;
+    true; true; true; true; true; true; true;
     match pl with
     | inr (ma, p) => negb (sh && valid_request ma p q) || is_ok obs
     | inl _ => true
     end;
     on_ok (fun p s => ok_min_nodes p q s);
     on_ok (fun p s => ok_job_counts p s);
-    match obs with inr s => ok_agent_same s | inl _ => true end ].
+    match obs with inr s => negb (nonneg_req q) || ok_agent_same s | inl _ => true end ].
